@@ -244,7 +244,7 @@ class SimpleARTMAP(BaseARTMAP):
         SimpleARTMAP.validate_data(self, X, y)
         # Store the classes seen during fit
         self.classes_ = unique_labels(y)
-        self.labels_ = y
+        self.labels_ = np.array(y)
         # init module A
         self.map = dict()
         self.module_a.W = []
@@ -299,7 +299,7 @@ class SimpleARTMAP(BaseARTMAP):
         """
         SimpleARTMAP.validate_data(self, X, y)
         if not hasattr(self, "labels_"):
-            self.labels_ = y
+            self.labels_ = np.array(y)
             self.module_a.W = []
             self.module_a.labels_ = np.zeros((X.shape[0],), dtype=int)
             j = 0
